@@ -294,6 +294,8 @@ def run_waits(ctx, desc):
         case = {"workload": "waits", "kind": "heartbeat", "byte": byte}
         if status in ("hung", "never-waited"):
             ctx.inconc(f"wait_for_heartbeat: {status}", case)
+        elif status == "not-woken":
+            ctx.violation("waiter-not-woken", "the heartbeat was delivered but the caller waiting in wait_for_heartbeat() was not woken", case)
         elif status != "returned" or val != want:
             ctx.violation("wait-for-heartbeat", f"wait_for_heartbeat ended {status} with {val!r}, expected return of {want!r}", case)
         # ---- a heartbeat of another node does not wake it; none arriving -> NmtError
